@@ -166,6 +166,14 @@ void ints(char const* desc, int kid, int maxlen)
                 Outcome o3 = guarded([&] { std::ostringstream os; using namespace cnl; os << tv[i]; s3 = os.str(); });
                 printf("S %d %zu stream %s ", kid, i, kind_name(o3.kind)); print_text(s3.data(), (long)s3.size()); if (s3.empty()) putchar('-'); putchar('\n');
             }
+            if constexpr (is_int128<T>) {
+                // a sticky std::oct / std::hex must not truncate the text (it may be honoured or ignored)
+                std::string so, sh;
+                Outcome oo = guarded([&] { std::ostringstream os; using namespace cnl; os << std::oct << tv[i]; so = os.str(); });
+                printf("S %d %zu stream_oct %s ", kid, i, kind_name(oo.kind)); print_text(so.data(), (long)so.size()); if (so.empty()) putchar('-'); putchar('\n');
+                Outcome oh = guarded([&] { std::ostringstream os; using namespace cnl; os << std::hex << tv[i]; sh = os.str(); });
+                printf("S %d %zu stream_hex %s ", kid, i, kind_name(oh.kind)); print_text(sh.data(), (long)sh.size()); if (sh.empty()) putchar('-'); putchar('\n');
+            }
             if constexpr (c01::is_builtin<T>) {
                 std::string s;
                 auto sb = [&](auto basec, char const* nm) {
@@ -182,6 +190,31 @@ void ints(char const* desc, int kid, int maxlen)
     }
     fflush(stdout);
     g.cur_kernel = "";
+}
+
+// ---- capacities of the fixed-capacity variants for every digit count:  Q <kid> <digits> <signed> <wide> <base> <capacity>
+template<class T>
+void capacity_of(int kid, int wide)
+{
+    for (int base : {2, 3, 8, 10, 16, 36})
+        printf("Q %d %d %d %d %d %d\n", kid, (int)std::numeric_limits<T>::digits, (int)cnl::numbers::signedness_v<T>, wide, base, (int)cnl::_impl::to_chars_capacity<T>{}(base));
+}
+template<int... D>
+void capacity_elastic(char const* desc, int kid, std::integer_sequence<int, D...>)
+{
+    if (!kernel_selected(desc)) return;
+    printf("{\"t\":\"kd\",\"id\":%d,\"k\":\"%s\",\"kind\":\"capacity\"}\n", kid, desc);
+    (capacity_of<cnl::elastic_integer<D + 1, int>>(kid, 0), ...);
+    (capacity_of<cnl::elastic_integer<D + 1, unsigned>>(kid, 0), ...);
+    fflush(stdout);
+}
+template<int Base, int... D>
+void capacity_wide(char const* desc, int kid, std::integer_sequence<int, D...>)
+{
+    if (!kernel_selected(desc)) return;
+    printf("{\"t\":\"kd\",\"id\":%d,\"k\":\"%s\",\"kind\":\"capacity\"}\n", kid, desc);
+    (capacity_of<cnl::wide_integer<Base + D, int>>(kid, 1), ...);
+    fflush(stdout);
 }
 
 // ---- scaled_integer
